@@ -244,6 +244,11 @@ pub fn run_case(case: &Case) -> Outcome {
         End::Panic(m) => return o.fail(format!("panicked: {m}")),
     };
     o.set("end", format!("{:?}", run.end));
+    // a growing problem integrated over thousands of steps can leave the floating-point range legitimately: the
+    // amplification of any of the methods over the run is bounded by about e^{L T}, the range ends at e^709
+    if cp.lipschitz * (cfg.t_end - cfg.t0).abs() > 600.0 && run.pts.iter().any(|(_, y)| !y.iter().all(|v| v.is_finite())) {
+        return o.discard("overflow within the growth bound e^{L T} of the problem");
+    }
     if let Err(m) = check_path(solver, cfg, su.euler_dt, cp.dim, &case.y0, &run.pts, completed) {
         return o.fail(m);
     }
